@@ -580,13 +580,16 @@ def r_py_colour(rep, f):
     # ---- (2) marking on every assignment of groups[col]
     out_ids = [l["pat"]["id"] for l in tast.find(body, lambda z: z.get("k") == "Let" and z["pat"].get("k") == "PBind" and "Vec<usize>" in (z["pat"].get("ty") or ""))]
     assigns = tast.find_with_parents(body, lambda z: z.get("k") == "Assign" and z["l"].get("k") == "Index" and z["l"]["e"].get("k") == "Path" and z["l"]["e"].get("id") in out_ids)
-    if len(assigns) < 2:
-        rep.inconc(key0, key0 + ":marking", "expected the group assignment in the existing-group and the new-group branch, found %d" % len(assigns))
+    if len(assigns) < 1:
+        rep.inconc(key0, key0 + ":marking", "no assignment of a column to a group found")
         return
     n_ok = 0
     for asg, parents in assigns:
         blk = next((p for p in reversed(parents) if p.get("k") == "Block"), None)
-        key = "%s:marking:%s" % (key0, "existing" if asg["r"].get("k") == "Path" and not tast.contains(blk, lambda z: z.get("k") == "MethodCall" and z.get("name") == "push") else "new")
+        # one assignment site shared by both cases (`let group = found.unwrap_or_else(|| { push new table; .. }); groups[col] = group;`)
+        # is checked like the existing-group case: the rows are marked in the table indexed by the assigned value
+        shared = len(assigns) == 1 and asg["r"].get("k") == "Path"
+        key = "%s:marking:%s" % (key0, "shared" if shared else "existing" if asg["r"].get("k") == "Path" and not tast.contains(blk, lambda z: z.get("k") == "MethodCall" and z.get("name") == "push") else "new")
         loops = tast.find(blk, lambda z: z.get("k") == "For")
         marks = []
         for lp in loops:
@@ -612,7 +615,7 @@ def r_py_colour(rep, f):
             if recv_ids and not (recv_ids & it_ids):
                 probs.append("the marking loop does not range over the rows that were tested")
         # existing group: table index is the assigned group value
-        if key.endswith("existing") and idx.get("k") == "Index" and idx["e"].get("k") == "Index":
+        if key.endswith(("existing", "shared")) and idx.get("k") == "Index" and idx["e"].get("k") == "Index":
             gi = idx["e"]["i"]
             if not (gi.get("k") == "Path" and asg["r"].get("k") == "Path" and gi.get("id") == asg["r"].get("id")):
                 probs.append("rows are marked in the table of a different group than the one assigned")
@@ -829,6 +832,30 @@ def _fd_canon(body_fn, e, depth=0):
                     return ("param", p.get("ty"), same.index(p))
             for fo in tast.find(b, lambda z: z.get("k") == "For"):
                 if tast.contains(fo["pat"], lambda z: z.get("k") == "PBind" and z.get("id") == e.get("id")):
+                    # `for (j, &yj) in y.iter().enumerate()`: the index is J, the element is y[J]; `for &yj in y.iter()` likewise
+                    it = fo["iter"]
+                    while it.get("k") in ("DropTemps", "Paren"):
+                        it = it["e"]
+                    enum = False
+                    if it.get("k") == "MethodCall" and it.get("name") == "enumerate":
+                        enum = True
+                        it = it["recv"]
+                    base = None
+                    while it.get("k") == "MethodCall" and it.get("name") in ("iter", "copied", "cloned", "into_iter", "iter_mut"):
+                        base = it["recv"]
+                        it = it["recv"]
+                    if it.get("k") == "AddrOf":
+                        base = it["e"]
+                    pat = fo["pat"]
+                    while pat.get("k") in ("PRef", "PDeref"):
+                        pat = pat["pat"]
+                    if enum and pat.get("k") == "PTuple" and len(pat["pats"]) == 2:
+                        if tast.contains(pat["pats"][0], lambda z: z.get("k") == "PBind" and z.get("id") == e.get("id")):
+                            return ("J",)
+                        if base is not None:
+                            return ("idx", _fd_canon(body_fn, base, depth + 1), ("J",))
+                    if not enum and base is not None and "f64" in (e.get("ty") or ""):
+                        return ("idx", _fd_canon(body_fn, base, depth + 1), ("J",))
                     return ("J",)
             lets = tast.find(b, lambda z: z.get("k") == "Let" and z["pat"].get("k") == "PBind" and z["pat"].get("id") == e.get("id") and z.get("init") is not None)
             if len(lets) == 1 and "Mut" not in (lets[0]["pat"].get("mode") or "").split(",")[-1] and not tast.contains(b, lambda z: z.get("k") in ("Assign", "AssignOp") and z["l"].get("k") == "Path" and z["l"].get("id") == e.get("id")):
@@ -877,6 +904,16 @@ def r_py_fd_step(rep, f):
             if len(ys) == 1:
                 other = sides[1] if sides[0] is ys[0] else sides[0]
                 incs.append((other, ys[0], a))
+        if not incs:
+            # the loop may have been moved into a private helper of the same function (`jac_fd_dense`)
+            for c_ in tast.find(b["body"], lambda z: z.get("k") in ("Call", "MethodCall") and (z.get("def") or "") in f.bodies and (z.get("def") or "") not in fns and f.inlinable(z.get("def") or "")):
+                hb = f.bodies[c_["def"]]
+                for a in tast.find(hb["body"], lambda z: z.get("k") == "Assign" and z["l"].get("k") == "Index" and z["r"].get("k") == "Binary" and z["r"]["op"] == "Add"):
+                    c = _fd_canon(hb, a["r"])
+                    sides = [c[1], c[2]]
+                    ys = [s_ for s_ in sides if s_[0] == "idx" and s_[2] == ("J",) and s_[1][0] == "param"]
+                    if len(ys) == 1:
+                        incs.append((sides[1] if sides[0] is ys[0] else sides[0], ys[0], a))
         if len(incs) != 1:
             rep.inconc(key, "%s:%s" % (key, fn), "expected one perturbation `yp[j] = y[j] + step` in %s, found %d" % (fn, len(incs)))
             return
